@@ -104,7 +104,51 @@ def w_silent_read_failure(events, line):
     return f is not None and f.get("failkind") in ("cache.Read", "cache.ReadCh")
 
 
+def _uni():
+    import json as _j, os as _o
+    u = _j.load(open(_o.path.join(vlib.VERIF, "schema", "universe.json")))
+    return {l["id"]: l for l in u["leaves"]}
+
+
+def w_choice_winner_uninvolved(events, line):
+    """C08.WinningCaseApplied / C01.Converged fail only on choice members whose case becomes the winning one
+    because the former winner left, while the winning contribution belongs to an intent that is not part of the
+    transaction and whose paths the transaction does not touch (its entries are never loaded into the tree)."""
+    e = events[line - 1]
+    if e["ev"] != "txset" or e["ret"] != "ok" or e["dry"]:
+        return False
+    pre = pre_state(events, line)
+    if pre is None:
+        return False
+    leaves = _uni()
+    owners = {i["o"] for i in e["intents"]}
+    involved = {q[0] for i in e["intents"] for q in i["upd"]} | {x[2] for x in pre["intended"] if x[0] in owners}
+    post = e["post"]["intended"]
+    dev = fun(e["post"]["device"])
+    # effective (merged, choice resolved) value per leaf from the observed store
+    best = {}
+    for o, p, l, v in post:
+        if l not in best or p < best[l][1]:
+            best[l] = (o, p, v)
+    win = {}
+    for l, (o, p, v) in best.items():
+        ch = leaves.get(l, {}).get("choice")
+        if ch and (ch not in win or p < win[ch][0]):
+            win[ch] = (p, leaves[l]["case"])
+    bad = []
+    for l, (o, p, v) in best.items():
+        ch = leaves.get(l, {}).get("choice")
+        if ch and leaves[l]["case"] != win[ch][1]:
+            continue  # losing case
+        if dev.get(l) != v:
+            bad.append((l, o))
+    if not bad:
+        return False
+    return all(leaves.get(l, {}).get("choice") and o not in owners and l not in involved for l, o in bad)
+
+
 WITNESS = {
+    "choice_winner_uninvolved": w_choice_winner_uninvolved,
     "silent_read_failure": w_silent_read_failure,
     "rollback_unmanaged_overwritten": w_rollback_unmanaged_overwritten,
 }
